@@ -29,6 +29,16 @@ class Srv:
         if self.run is None:
             self.errors.append('Server::run not found')
             return
+        # private async helpers awaited by the loop / the handler (other than the anchors themselves) are analysed in place
+        import inline
+        ex = {x for x in (self.handle_call_fn, self.get_next_call_fn) if x}
+        ex |= {x + '::{closure#0}' for x in ex}
+        try:
+            self.run = inline.expand_async(crate, self.run, exclude=ex)
+            if self.handle_call is not None:
+                self.handle_call = inline.expand_async(crate, self.handle_call, exclude=ex)
+        except Exception as e:      # fail closed: the rules report what they cannot find
+            self.errors.append('async helper expansion failed: %s' % e)
         self._analyse_run()
 
     # ------------------------------------------------------------------
@@ -38,7 +48,7 @@ class Srv:
         self.conn_vec = self.stream_vec = None
         for l in run.locals:
             ty = l.get('ty', '')
-            if l.get('name') and 'Vec<' in ty and l.get('user'):
+            if l.get('name') and 'Vec<' in ty and l.get('user') and not l.get('from') and not ty.startswith('&'):
                 if ty.startswith('std::vec::Vec<connection::Connection<') or ty.startswith('alloc::vec::Vec<connection::Connection<'):
                     self.conn_vec = l['i']
                 elif 'Vec<server::ReplyStream<' in ty:
